@@ -138,6 +138,11 @@ def gen(ctx):
         for cl in (None, 7, 300):
             cases.append(dict(form='fill', shape=[300], dtype=dtype_str(dt.lstrip('>'), 'big' if dt[0] == '>' else 'little'),
                               chunklen=cl, intshape=False, fillfunc='hmod'))
+    # the chunk length given as a NumPy integer that cannot count up to the length of the first axis
+    big1 = (np.arange(300, dtype='int64') % 251).astype('int16')
+    for clt, cl in (('int8', 100), ('uint8', 200), ('int8', 127), ('int16', 7)):
+        cases.append(dict(form='nd', value=nd_spec(big1), dtype=None, chunklen=cl, cltype=clt, mode='r'))
+        cases.append(dict(form='darr', value=nd_spec(big1), dtype=None, chunklen=cl, cltype=clt))
     return cases
 
 
